@@ -25,13 +25,13 @@ Definition content (n : node) : list node :=
   end.
 
 (* visitMappingNodeFields(content, fn, name) through visitFieldsWhileTrue:
-     for i := 0; i < len(content); i += 2 { fn(content[i], content[i+1], i) ... }
-   content[i+1] is evaluated before fn is called: a dangling last node panics (index out of range),
-   unless the field was found before *)
+     for i := 0; i+1 < len(content); i += 2 { fn(content[i], content[i+1], i) ... }
+   a trailing entry without a partner is not a field (repo fix 1d1d852; the loop used to run while
+   i < len(content) and indexed content[i+1] past the end: a panic, modelled as such until then) *)
 Fixpoint raw_find (name : string) (c : list node) : res (option node) :=
   match c with
   | [] => Ok None
-  | [_] => Panic
+  | [_] => Ok None
   | k :: v :: t => if String.eqb (node_value k) name then Ok (Some v) else raw_find name t
   end.
 
@@ -39,7 +39,7 @@ Fixpoint raw_find (name : string) (c : list node) : res (option node) :=
 Fixpoint raw_pairs (c : list node) : res (list (string * node)) :=
   match c with
   | [] => Ok []
-  | [_] => Panic
+  | [_] => Ok []
   | k :: v :: t => do r <- raw_pairs t; Ok ((node_value k, v) :: r)
   end.
 
@@ -198,7 +198,7 @@ End GetFieldValue.
 
 (* ---------- fieldspec.Filter on any object, including a sequence at the top ----------
    isMatchGVK reads kind and apiVersion through getMapFieldValue, which does not look at the node kind:
-   a sequence is read pairwise, and panics when the reader runs off an odd Content.
+   a sequence is read pairwise (a trailing unpaired element is ignored).
    (Yaml/FieldSpec.v models the readers on mappings; [fs_apply_raw] agrees with [fs_apply] there.) *)
 From KV Require Export Yaml.FieldSpec.
 
